@@ -152,13 +152,14 @@ Theorem history_parity :
 Proof. exact history_parity_lemma. Qed.
 
 (** The executable history model of the correspondence (components proto.pair / proto.answered) meets its specification
-    component on EVERY input of the domain: all requests are answered with a response on both connections, equal up to
-    [normalise]. *)
+    component on EVERY input of the domain — ordinary, streamed ([ex_fut], framed) and limiter-answered ([ex_limited], 429)
+    exchanges —: all requests are answered with a response on both connections, equal up to [normalise]. *)
 Theorem pair_history_answered : forall checked ops alt e416,
   Forall (fun o => hop (pkg_op_name o) = false) ops ->
   forall secure1 exs,
     Forall (fun e => (pr_no_request_body (ex_method e) = true -> ex_blen e = 0) /\
-                     N.of_nat (length (rs_body (ex_l4 e))) <= u64_max) exs ->
+                     N.of_nat (length (rs_body (ex_l4 e))) <= u64_max /\
+                     fut_framed (ex_l4 e) (ex_fut e)) exs ->
     forallb is_resp (pair_hist checked ops alt e416 H1 true secure1 exs) = true /\
     forallb is_resp (pair_hist checked ops alt e416 H2 true true exs) = true /\
     map (option_map onorm) (pair_hist checked ops alt e416 H1 true secure1 exs)
@@ -180,6 +181,107 @@ Theorem undeclared_request_body_refuted : exists checked ops alt e416 exs,
   forallb is_resp (pair_hist checked ops alt e416 H1 true true exs) = false /\
   forallb is_resp (pair_hist checked ops alt e416 H2 true true exs) = true.
 Proof. exact undeclared_body_refuted_lemma. Qed.
+
+(** ---- the response pipe: head, body, future, close ([SendKind::send], [ResponsePipe], [ResponseBodyPipe]) ---- *)
+(** the harness's Package menu leaves [content-length] alone (second hypothesis of the pipe theorems) *)
+Theorem pkg_menu_keeps_content_length : forall ops,
+  Forall (fun o => hop (pkg_op_name o) = false) ops -> pkg_keeps_length (pkg_menu ops).
+Proof. exact pkg_menu_keeps_length. Qed.
+
+(** Without a streaming future the pipe-level model — [send_response(head, false)], the body unless HEAD, [close], and the
+    client's framing of what arrives — IS [send]: every theorem about [send] is a theorem about the operations on the pipe. *)
+Theorem send_is_pipe_send : forall checked error_page pkg head_future p secure alt m sd r,
+  pkg_keeps_length pkg ->
+  send_pipe checked error_page pkg head_future p secure alt m sd r None = send checked error_page pkg p secure alt m sd r.
+Proof. exact send_pipe_no_future. Qed.
+
+(** A response with a streaming future (FatResponse::with_future / with_future_and_len: [extensions::stream_body], streamed
+    proxy bodies), for every chunk list, method, protocol: the client receives ONE well-framed response whose body is what
+    [Response::body] and then the future wrote, in that order (nothing for HEAD), with the end-to-end headers of the head
+    the Package chain produced — whenever the announced length is the number of bytes written ([fut_framed]). *)
+Theorem streamed_answer : forall checked error_page pkg p secure alt m sd r cs ol,
+  pkg_keeps_length pkg -> fut_framed r (Some (cs, ol)) ->
+  exists v h, send_pipe checked error_page pkg false p secure alt m sd r (Some (cs, ol))
+              = Ok (WResp (mkResp v (rs_status r) h (if m =? M_HEAD then [] else rs_body r ++ concat cs)))
+              /\ v = ensure_version p (rs_version r)
+              /\ strip h = strip (pkg v (match ol with
+                                         | Some n => ensure_length p n (rs_headers (add_alt_svc secure alt r))
+                                         | None => rs_headers (add_alt_svc secure alt r) end)).
+Proof. exact send_pipe_stream. Qed.
+
+(** protocol parity at the level of the pipe, streamed or not *)
+Theorem stream_parity : forall checked error_page pkg secure1 alt m sd r f,
+  pkg_oblivious pkg -> pkg_keeps_length pkg -> fut_framed r f ->
+  onorm (send_pipe checked error_page pkg false H1 secure1 alt m sd r f)
+  = onorm (send_pipe checked error_page pkg false H2 true alt m sd r f).
+Proof. exact send_pipe_parity. Qed.
+
+(** The code before the repair 572c88a ([head_future = true]) ran the future for HEAD too: the streamed bytes follow the head
+    of the HEAD answer on both protocols — out-of-step HTTP/1 connection, DATA the h2 client refuses (replayed on the real
+    code before the repair: known-findings.txt). *)
+Theorem head_stream_v0_refuted : exists r cs n,
+  fut_framed r (Some (cs, Some n)) /\
+  send_pipe false (fun _ => r) (fun _ h => h) true H1 true None M_HEAD (Ok None) r (Some (cs, Some n)) = Ok WBroken /\
+  send_pipe false (fun _ => r) (fun _ h => h) true H2 true None M_HEAD (Ok None) r (Some (cs, Some n)) = Ok WBroken /\
+  (exists w1 w2, send_pipe false (fun _ => r) (fun _ h => h) false H1 true None M_HEAD (Ok None) r (Some (cs, Some n)) = Ok (WResp w1) /\
+                 send_pipe false (fun _ => r) (fun _ h => h) false H2 true None M_HEAD (Ok None) r (Some (cs, Some n)) = Ok (WResp w2) /\
+                 rs_body w1 = [] /\ rs_body w2 = []).
+Proof. exact head_stream_v0_refuted_lemma. Qed.
+
+(** Why the head is sent with [end_of_stream = false] also when [Response::body] is empty: with [true] an HTTP/2 client would
+    get an empty body for a streamed response (h2 refuses every later write) while the HTTP/1.1 client gets the stream. *)
+Theorem head_end_of_stream_refuted : exists v st h cs,
+  concat cs <> [] /\
+  receive H1 M_GET (pipe_send H1 true v st (ensure_length H1 (N.of_nat (length (concat cs))) h) None cs)
+    = WResp (mkResp v st (h1_connection (ensure_length H1 (N.of_nat (length (concat cs))) h)) (concat cs)) /\
+  receive H2 M_GET (pipe_send H2 true v st h None cs) = WResp (mkResp v st (h2_strip h) []) /\
+  receive H2 M_GET (pipe_send H2 false v st h None cs) = WResp (mkResp v st (h2_strip h) (concat cs)).
+Proof. exact head_end_of_stream_refuted_lemma. Qed.
+
+(** [handle_connection]'s own answers (429 of the request limiter, 409 without a host): for every page and method both
+    protocols deliver it, equal up to [normalise], without a body for HEAD. *)
+Theorem limiter_answer_parity : forall m r,
+  onorm (send_direct H1 m r) = onorm (send_direct H2 m r) /\
+  forall p, exists h, send_direct p m r
+                      = Ok (WResp (mkResp (ensure_version p (rs_version r)) (rs_status r) h (if m =? M_HEAD then [] else rs_body r)))
+                      /\ strip h = strip (rs_headers r).
+Proof. intros m r. split; [apply send_direct_parity | intros p; apply send_direct_resp]. Qed.
+
+(** The filter of the HTTP/2 arm is total: for EVERY header set — every subset of the connection-specific headers, with or
+    without [connection], whatever [connection] nominates — the head handed to h2 passes h2's check, and no end-to-end
+    header is touched. *)
+Theorem connection_headers_filter_total : forall h,
+  h2_refuses (h2_strip h) = false /\ strip (h2_strip h) = strip h.
+Proof. intros h. split; [apply h2_strip_accepted | apply strip_h2_strip]. Qed.
+
+(** ---- request bodies: which bytes the handler gets ---- *)
+(** For every request body, every way of cutting it into DATA frames (HTTP/2; empty frames included), every amount of it
+    arriving with the head (HTTP/1) and every limit: the first [read_to_bytes(max_len)] returns the first [max_len] bytes
+    of the body on both protocols. *)
+Theorem read_to_bytes_parity : forall body early conn frames max_len,
+  early ++ conn = body -> concat frames = body ->
+  fst (h1_read_to_bytes (mkH1B early conn (N.of_nat (length body))) max_len) = firstn (N.to_nat max_len) body /\
+  fst (h2_read_to_bytes frames max_len) = firstn (N.to_nat max_len) body.
+Proof. exact read_to_bytes_parity_lemma. Qed.
+
+(** Known class h2-body-read-again: the parity ends with the first call.  A handler that calls [read_to_bytes] again after a
+    call that hit its limit gets nothing on HTTP/1.1 ("Don't return anything next time we are called!") and the DATA frames
+    after the one in which the limit was reached on HTTP/2. *)
+Theorem second_read_refuted : exists body early conn frames l1 l2,
+  early ++ conn = body /\ concat frames = body /\
+  h1_reads (mkH1B early conn (N.of_nat (length body))) [l1; l2] <> h2_reads frames [l1; l2].
+Proof. exact second_read_refuted_lemma. Qed.
+
+(** [extensions::stream_body] (repaired, 7cbe1e5) meets [fut_framed] for every file and Range: the length it announces is the
+    number of bytes its future writes (the whole file without a Range); before the repair it was not. *)
+Theorem stream_body_framed : forall file a c,
+  match stream_plan true file (Some (a, c)) with Some (b, n) => n = N.of_nat (length b) | None => True end /\
+  match stream_plan true file None with Some (b, n) => n = N.of_nat (length b) /\ b = file | None => False end.
+Proof. exact stream_plan_framed_lemma. Qed.
+
+Theorem stream_body_v0_refuted : exists file a c, a < c /\
+  match stream_plan false file (Some (a, c)) with Some (b, n) => n <> N.of_nat (length b) | None => False end.
+Proof. exact stream_plan_v0_refuted_lemma. Qed.
 
 (** ---- non-vacuity ---- *)
 (** a Package chain like [Extensions::new()]'s (referrer-policy unless present, server always) is oblivious *)
@@ -272,3 +374,34 @@ Proof.
   - repeat constructor; cbn; intros H; try reflexivity; discriminate H.
   - vm_compute. repeat constructor; discriminate.
 Qed.
+
+(** a streamed response: an empty [Response] body, three chunks from the future, length announced: both protocols deliver
+    the chunks in order; HTTP/1.1 states the overridden length *)
+Example streamed_instance :
+  let r := mkResp V11 200 [(B "content-type", B "text/plain")] [] in
+  let f := Some ([B "first "; []; B "second"], Some 12) in
+  fut_framed r f /\
+  send_pipe false (fun _ => r) ex_pkg false H2 true None M_GET (Ok None) r f
+    = Ok (WResp (mkResp V2 200 [(B "content-type", B "text/plain"); (B "referrer-policy", B "no-referrer"); (B "server", B "Kvarn")]
+                        (B "first second"))) /\
+  send_pipe false (fun _ => r) ex_pkg false H1 true None M_GET (Ok None) r f
+    = Ok (WResp (mkResp V11 200 [(B "content-type", B "text/plain"); (B "content-length", B "12");
+                                 (B "referrer-policy", B "no-referrer"); (B "server", B "Kvarn"); (B "connection", B "keep-alive")]
+                        (B "first second"))).
+Proof. cbv zeta. split; [reflexivity|]. split; vm_compute; reflexivity. Qed.
+
+(** a 40-byte body in DATA frames of 16 + 16 + 8 bytes, 5 of them with the HTTP/1 head, limit 20: both handlers get bytes 0..19 *)
+Example read_instance :
+  let body := map N.of_nat (seq 0 40) in
+  firstn 5 body ++ skipn 5 body = body /\
+  concat [firstn 16 body; firstn 16 (skipn 16 body); skipn 32 body] = body /\
+  fst (h1_read_to_bytes (mkH1B (firstn 5 body) (skipn 5 body) 40) 20) = map N.of_nat (seq 0 20) /\
+  fst (h2_read_to_bytes [firstn 16 body; firstn 16 (skipn 16 body); skipn 32 body] 20) = map N.of_nat (seq 0 20).
+Proof. vm_compute. repeat split. Qed.
+
+(** every subset of the connection-specific headers, here without [connection]: dropped on HTTP/2, kept on HTTP/1.1 *)
+Example filter_instance :
+  h2_strip [(B "keep-alive", B "timeout=5"); (B "x-a", B "1"); (B "te", B "gzip"); (B "upgrade", B "h2c")] = [(B "x-a", B "1")] /\
+  h2_strip [(B "connection", B "x-nominated"); (B "x-nominated", B "v"); (B "te", B "trailers")]
+    = [(B "x-nominated", B "v"); (B "te", B "trailers")].
+Proof. split; vm_compute; reflexivity. Qed.
